@@ -183,8 +183,9 @@ impl<'a> sval_ref::ValueRef<'a> for EmitValue<'a> {
             }
 
             fn bool(&mut self, value: bool) -> sval::Result {
+                // Keys in OTLP are always strings
                 if self.in_map_key {
-                    todo!()
+                    return sval::stream_display(&mut self.stream, value);
                 }
 
                 self.any_value_begin(&ANY_VALUE_BOOL_LABEL, &ANY_VALUE_BOOL_INDEX)?;
@@ -219,8 +220,9 @@ impl<'a> sval_ref::ValueRef<'a> for EmitValue<'a> {
             }
 
             fn i64(&mut self, value: i64) -> sval::Result {
+                // Keys in OTLP are always strings
                 if self.in_map_key {
-                    todo!()
+                    return sval::stream_display(&mut self.stream, value);
                 }
 
                 self.any_value_begin(&ANY_VALUE_INT_LABEL, &ANY_VALUE_INT_INDEX)?;
@@ -229,8 +231,9 @@ impl<'a> sval_ref::ValueRef<'a> for EmitValue<'a> {
             }
 
             fn f64(&mut self, value: f64) -> sval::Result {
+                // Keys in OTLP are always strings
                 if self.in_map_key {
-                    todo!()
+                    return sval::stream_display(&mut self.stream, value);
                 }
 
                 self.any_value_begin(&ANY_VALUE_DOUBLE_LABEL, &ANY_VALUE_DOUBLE_INDEX)?;
